@@ -1642,6 +1642,7 @@ fn check_case_built(case: &Case, b: &Built, rec: &mut Rec) -> CaseResult {
         if ui == 0 && loc.iter().any(|v| *v != 0) {
             return Err(fail("default-not-zero", format!("default user coordinates normalise to {:?}", loc)));
         }
+        check_loc(&b.font, user, &loc, rec)?;
         check_instance(&b.model, &src, &src_fields, &out, &loc, rec, &mut agg)?;
         locs.push(loc);
     }
@@ -1744,6 +1745,98 @@ fn be16(d: &[u8], at: usize) -> Option<u16> {
 }
 fn be32(d: &[u8], at: usize) -> Option<i32> {
     d.get(at..at + 4).map(|b| i32::from_be_bytes([b[0], b[1], b[2], b[3]]))
+}
+
+/// The location `instance` reports against an f64 reading of the source font's fvar and avar.
+/// Normalisation is decided exactly by C13; here a gross error (another axis's segment map, a
+/// map not applied, a wrong axis record) must not pass as "the instance at some other location":
+/// tolerance 2·max(1, slope of the avar segment) + 2 units of 2.14. Axes whose segment map is not
+/// valid (required pairs missing, `from` not strictly increasing, `to` decreasing) are skipped.
+fn check_loc(font: &[u8], user: &[i32], loc: &[i16], rec: &mut Rec) -> CaseResult {
+    let axes = match find_table(font, b"fvar").and_then(read_fvar_axes) {
+        Some(a) if a.len() == user.len() && a.len() == loc.len() => a,
+        _ => return Ok(()),
+    };
+    // avar version 1: per axis a list of (from, to) pairs
+    let mut maps: Vec<Option<Vec<(f64, f64)>>> = vec![None; axes.len()];
+    if let Some(avar) = find_table(font, b"avar") {
+        if be16(avar, 0) == Some(1) && be16(avar, 6).map(|n| n as usize) == Some(axes.len()) {
+            let mut at = 8usize;
+            for m in maps.iter_mut() {
+                let n = match be16(avar, at) {
+                    Some(n) => n as usize,
+                    None => return Ok(()),
+                };
+                at += 2;
+                let mut v = Vec::with_capacity(n);
+                for _ in 0..n {
+                    match (be16(avar, at), be16(avar, at + 2)) {
+                        (Some(f), Some(t)) => v.push((f as i16 as f64 / 16384.0, t as i16 as f64 / 16384.0)),
+                        _ => return Ok(()),
+                    }
+                    at += 4;
+                }
+                *m = Some(v);
+            }
+        } else {
+            return Ok(());
+        }
+    }
+    for (i, a) in axes.iter().enumerate() {
+        let (min, def, max) = (a.min as f64, a.default as f64, a.max as f64);
+        if !(min <= def && def <= max) {
+            continue;
+        }
+        let u = (user[i] as f64).clamp(min, max);
+        let mut n = if u < def { -(def - u) / (def - min) } else if u > def { (u - def) / (max - def) } else { 0.0 };
+        let mut slope = 1.0f64;
+        if let Some(m) = &maps[i] {
+            if !m.is_empty() {
+                let valid = m.windows(2).all(|w| w[0].0 < w[1].0 && w[0].1 <= w[1].1)
+                    && m.contains(&(-1.0, -1.0))
+                    && m.contains(&(0.0, 0.0))
+                    && m.contains(&(1.0, 1.0));
+                if !valid {
+                    rec.class("loc-check:avar-map-not-valid,axis-skipped");
+                    continue;
+                }
+                let k = m.iter().position(|p| n <= p.0).unwrap_or(m.len() - 1).max(1);
+                let (f0, t0) = m[k - 1];
+                let (f1, t1) = m[k];
+                slope = (t1 - t0) / (f1 - f0);
+                n = t0 + (n - f0) * slope;
+                // at a knot either neighbouring segment may have been used
+                if k + 1 < m.len() && (n - t1).abs() < 1e-12 {
+                    slope = slope.max((m[k + 1].1 - t1) / (m[k + 1].0 - f1));
+                }
+            }
+        }
+        let n = n.clamp(-1.0, 1.0);
+        let tol = 2.0 * slope.max(1.0) + 2.0;
+        let got = loc[i] as f64;
+        if (got - n * 16384.0).abs() > tol {
+            return Err(fail(
+                "location",
+                format!(
+                    "axis {} ({}; min {} default {} max {} raw 16.16): user {} is reported at normalised {} (raw 2.14) but fvar{} give {:.2} (tolerance {:.1}); whole user tuple {:?}, reported location {:?}",
+                    i,
+                    String::from_utf8_lossy(&a.tag),
+                    a.min,
+                    a.default,
+                    a.max,
+                    user[i],
+                    loc[i],
+                    if maps[i].is_some() { " and the axis's avar segment map" } else { "" },
+                    n * 16384.0,
+                    tol,
+                    user,
+                    loc
+                ),
+            ));
+        }
+    }
+    rec.class("loc-check:done");
+    Ok(())
 }
 
 /// (tag, min, default, max) per axis, read from fvar per the specification
@@ -1889,6 +1982,7 @@ fn check_fixture(item: u64, rec: &mut Rec) -> CaseResult {
     let tuple: Vec<Fixed> = user.iter().map(|v| Fixed::from_raw(*v)).collect();
     let (out, loc) = allsorts::variations::instance(&prov, &tuple).map_err(|e| fail("instance-err", format!("{}: instance() failed at user tuple {:?}: {:?}", name, user, e)))?;
     let loc: Vec<i16> = loc.iter().map(|v| v.raw_value()).collect();
+    check_loc(&bytes, &user, &loc, rec).map_err(|f| Fail::new(f.sig, format!("{}: {}", name, f.msg)))?;
     let mut agg = Agg::default();
     check_instance(&model, &src, &src_fields, &out, &loc, rec, &mut agg).map_err(|f| Fail::new(f.sig, format!("{} (user {:?}): {}", name, user, f.msg)))?;
     rec.set_nontrivial(agg.fractional && agg.inferred);
@@ -2384,6 +2478,7 @@ pub fn check_cff2_case(case: &Cff2Case, rec: &mut Rec) -> CaseResult {
         if ui == 0 && loc.iter().any(|v| *v != 0) {
             return Err(fail("default-not-zero", format!("default user coordinates normalise to {:?}", loc)));
         }
+        check_loc(&font, user, &loc, rec)?;
         let coords: Vec<f64> = loc.iter().map(|v| *v as f64 / 16384.0).collect();
         let mut wants = Vec::new();
         for (g, gi) in b.glyphs.iter().enumerate() {
@@ -2524,6 +2619,7 @@ fn check_cff2_fixture(item: u64, rec: &mut Rec) -> CaseResult {
     let tuple: Vec<Fixed> = user.iter().map(|v| Fixed::from_raw(*v)).collect();
     let (out, loc) = allsorts::variations::instance(&prov, &tuple).map_err(|e| fail("cff2-instance-err", format!("{}: instance() failed at user tuple {:?}: {:?}", name, user, e)))?;
     let loc: Vec<i16> = loc.iter().map(|v| v.raw_value()).collect();
+    check_loc(&bytes, &user, &loc, rec).map_err(|f| Fail::new(f.sig, format!("{}: {}", name, f.msg)))?;
     let coords: Vec<f64> = loc.iter().map(|v| *v as f64 / 16384.0).collect();
     let mut wants = Vec::new();
     for g in 0..src_t2.charstrings.len() {
